@@ -742,6 +742,10 @@ func checkC12(c *Ctx, r *Report) {
 		r.Check(ok, name+"|construct "+w.field, m.Lit.Pos(), "built for the negotiated algorithm", "the session's "+w.field+" is not constructed from the negotiated "+w.alg)
 	}
 
+	// the objects the session is built from are the specified ones for the negotiated numbers,
+	// and a number outside the tables is refused (tables shared with C01)
+	checkAlgorithmTables(c, r)
+
 	// ---- (4) no (nil, nil) constructors
 	r.Rule("no-nil-algorithm", "algorithm constructors return a usable object or an error, never (nil, nil): a None/unsupported algorithm cannot lead to a nil hash or layer being registered, invoked or used to sign", 2)
 	ia := c.Named("pkg/ipmi", "IntegrityAlgorithm")
